@@ -802,6 +802,23 @@ pub fn range_ops(case: &mut Case, n: usize, full: bool) -> Vec<Vec<Op>> {
                 ops.push(Op::Splice { v: 0, lo: canon.0, hi: canon.1, typed, repl: Repl::Wrappers(vec![case.fresh_id()]), script: st, end: End::Drop });
             }
         }
+        // the bulk methods an implementation may override: the rest of the range is consumed through count / last / fold / rfold / step_by
+        for end in End::FINISHERS {
+            for (pattern, typed) in [(0usize, false), (1, false), (2, false), (0, true), (2, true)] {
+                let st: Vec<Step> = match pattern {
+                    0 => vec![],
+                    1 => vec![Step { back: false, sink: Sink::DOWNCAST, skip: 0 }],
+                    _ => vec![Step { back: true, sink: Sink::DROP, skip: 0 }, Step { back: false, sink: Sink::DROP, skip: 0 }],
+                };
+                if st.len() > r {
+                    continue;
+                }
+                ops.push(Op::Drain { v: 0, lo: canon.0, hi: canon.1, typed, script: st.clone(), end });
+                if pattern != 1 {
+                    ops.push(Op::Splice { v: 0, lo: canon.0, hi: canon.1, typed, repl: Repl::Wrappers(vec![case.fresh_id(), case.fresh_id()]), script: st, end });
+                }
+            }
+        }
         // every other RangeBounds form denoting the same range
         for (lo, hi) in bound_forms(a, b, n) {
             if (lo, hi) == canon {
@@ -871,10 +888,21 @@ pub fn iter_ops(_case: &mut Case, n: usize, _full: bool) -> Vec<Vec<Op>> {
     ];
     for how in hows {
         for bits in choice_strings(n.min(7), 6, n <= 7) {
-            ops.push(Op::IterScript { v: 0, how, script: bits.clone(), skips: vec![], clone_at: None });
+            ops.push(Op::IterScript { v: 0, how, script: bits.clone(), skips: vec![], clone_at: None, end: End::Drop });
             if matches!(how, IterHow::Iter | IterHow::IntoIterRef | IterHow::TIter) && !bits.is_empty() {
                 for at in [0, bits.len() / 2, bits.len() - 1] {
-                    ops.push(Op::IterScript { v: 0, how, script: bits.clone(), skips: vec![], clone_at: Some(at) });
+                    ops.push(Op::IterScript { v: 0, how, script: bits.clone(), skips: vec![], clone_at: Some(at), end: End::Drop });
+                }
+            }
+        }
+    }
+    // the bulk methods an implementation may override: count / last / fold / rfold / step_by after 0..2 steps from either end
+    for how in hows {
+        for end in End::FINISHERS {
+            for script in [vec![], vec![false], vec![true], vec![false, true], vec![true, true, false]] {
+                ops.push(Op::IterScript { v: 0, how, script: script.clone(), skips: vec![], clone_at: None, end });
+                if matches!(how, IterHow::Iter | IterHow::TIter) && !script.is_empty() {
+                    ops.push(Op::IterScript { v: 0, how, script, skips: vec![], clone_at: Some(0), end });
                 }
             }
         }
@@ -889,9 +917,9 @@ pub fn iter_ops(_case: &mut Case, n: usize, _full: bool) -> Vec<Vec<Op>> {
             (vec![false, false], vec![0, n.min(9) as u8]),
             (vec![true, false], vec![n.min(9) as u8, 0]),
         ] {
-            ops.push(Op::IterScript { v: 0, how, script: script.clone(), skips: skips.clone(), clone_at: None });
+            ops.push(Op::IterScript { v: 0, how, script: script.clone(), skips: skips.clone(), clone_at: None, end: End::Drop });
             if matches!(how, IterHow::Iter | IterHow::TIter) {
-                ops.push(Op::IterScript { v: 0, how, script, skips, clone_at: Some(1) });
+                ops.push(Op::IterScript { v: 0, how, script, skips, clone_at: Some(1), end: End::Drop });
             }
         }
     }
